@@ -47,6 +47,7 @@ CONSTANTS NHosts,        \* hosts 1..NHosts; the load-balancing plan is <<1, ..,
           CLs,           \* what the policy may return as consistency: a level (0 = ANY, 1 = ONE, 4 = QUORUM, ..) or NoCL = None
           MaxRetries,    \* the decision oracle grants at most this many retries
           MaxEpoch,      \* 1, or 2 to include one start_fetching_next_page
+          IdChoices,     \* subset of {"default", "zero", "one"}: stream ids the idle pool connections hand out (see `ids`)
           Timeouts,      \* BOOLEAN: the client timeout may fire
           Late           \* BOOLEAN: answers may arrive after the future completed
 
@@ -60,6 +61,9 @@ IsErr(f)    == f \notin (ResultKinds \cup {"unset"})
 VARIABLES pool,       \* host -> "healthy" | "missing" | "shutdown" | "busy" | "failing" | "unwritable" | "noconn"
           idem,       \* statement.is_idempotent
           target,     \* explicit host or 0
+          ids,        \* id space of every pool connection: "default" (as left by the handshake: ids >= 1, never re-used in
+                      \* a run), "zero" (the first attempt on a connection gets stream id 0, never re-used), "one" (a single
+                      \* recycled id: every attempt gets stream id 0)
           started,
           plan,       \* remaining query plan (the iterator)
           tried,      \* attempted_hosts
@@ -81,7 +85,7 @@ VARIABLES pool,       \* host -> "healthy" | "missing" | "shutdown" | "busy" | "
           reqAtt,     \* attempt designated by self._req_id (last send made by send_request) or 0
           act         \* last action, for replay
 
-vars == <<pool, idem, target, started, plan, tried, errs, att, sentLog, policyLog, retries, cl, specLeft,
+vars == <<pool, idem, target, ids, started, plan, tried, errs, att, sentLog, policyLog, retries, cl, specLeft,
           timer, final, paging, cb, eb, dlv, queue, epoch, lastConn, reqAtt, act>>
 
 A(name, a, k, d, c) == [name |-> name, a |-> a, k |-> k, d |-> d, c |-> c]
@@ -152,8 +156,8 @@ FArm(s) == [s EXCEPT !.timer = IF s.specLeft > 0 THEN "spec" ELSE "timeout",
                      !.specLeft = IF @ > 0 THEN @ - 1 ELSE 0]
 
 (* ------------------------------------------------------------------------ *)
-InitWith(pl, id, tg, sp) ==
-    /\ pool = pl /\ idem = id /\ target = tg /\ specLeft = sp
+InitWith(pl, id, tg, sp, im) ==
+    /\ pool = pl /\ idem = id /\ target = tg /\ specLeft = sp /\ ids = im
     /\ started = FALSE
     /\ plan = <<>> /\ tried = <<>> /\ errs = [h \in Hosts |-> "none"] /\ att = {}
     /\ sentLog = <<>> /\ policyLog = <<>> /\ retries = 0 /\ cl = InitCL
@@ -164,7 +168,8 @@ InitWith(pl, id, tg, sp) ==
 
 PoolVectors == {f \in [Hosts -> PoolConds \cup {"healthy"}] : Cardinality({h \in Hosts : f[h] # "healthy"}) <= MaxBad}
 
-Init == \E pl \in PoolVectors, id \in IdemChoices, tg \in TargetChoices, sp \in SpecChoices : InitWith(pl, id, tg, sp)
+Init == \E pl \in PoolVectors, id \in IdemChoices, tg \in TargetChoices, sp \in SpecChoices, im \in IdChoices :
+            InitWith(pl, id, tg, sp, im)
 
 (* Session.execute_async: _create_response_future (plan, timer; a speculative plan only for           *)
 (* idempotent statements), callbacks registered by a request-init listener, send_request().           *)
@@ -175,7 +180,7 @@ Start ==
                            !.specLeft = IF idem THEN @ ELSE 0] IN
        Set(FLoop(FArm(s0), TRUE))
     /\ act' = A("Start", 0, "-", "-", 0)
-    /\ UNCHANGED <<idem, target>>
+    /\ UNCHANGED <<idem, target, ids>>
 
 (* _set_result, ResultMessage: rows (paging state or not) / void *)
 AnsOk(a, k) ==
@@ -185,7 +190,7 @@ AnsOk(a, k) ==
                            !.paging = IF k = "void" THEN @ ELSE (k = "more")] IN
        Set(FComplete(s1, IF k = "void" THEN "empty" ELSE "rows"))
     /\ act' = A("AnsOk", a, k, "-", 0)
-    /\ UNCHANGED <<idem, target, started>>
+    /\ UNCHANGED <<idem, target, ids, started>>
 
 (* what the oracle may answer now *)
 DecSet == IF retries >= MaxRetries
@@ -212,7 +217,7 @@ AnsErr(a, k, d, c) ==
                    [] d = "IGNORE"  -> FComplete(s1, "empty") IN
        Set([s2 EXCEPT !.errs = [@ EXCEPT ![h] = k]])
     /\ act' = A("AnsErr", a, k, d, c)
-    /\ UNCHANGED <<idem, target, started>>
+    /\ UNCHANGED <<idem, target, ids, started>>
 
 (* _set_result, any other ErrorMessage: raised directly *)
 AnsFatal(a, k) ==
@@ -220,24 +225,29 @@ AnsFatal(a, k) ==
     /\ final # "unset" => Late
     /\ Set(FComplete([S EXCEPT !.att = @ \ {a}], k))
     /\ act' = A("AnsFatal", a, k, "-", 0)
-    /\ UNCHANGED <<idem, target, started>>
+    /\ UNCHANGED <<idem, target, ids, started>>
 
 (* _on_speculative_execute (timer callback) *)
 SpecFire ==
     /\ timer = "spec"
     /\ Set(FArm(FLoop([S EXCEPT !.timer = "none"], FALSE)))
     /\ act' = A("SpecFire", 0, "-", "-", 0)
-    /\ UNCHANGED <<idem, target, started>>
+    /\ UNCHANGED <<idem, target, ids, started>>
 
 (* _on_timeout (timer callback): deregister the request designated by (_connection, _req_id) if it is *)
-(* still there, then OperationTimedOut.                                                               *)
+(* still there, then OperationTimedOut.  Stream ids are not modelled: with ids that are never re-used   *)
+(* the pair designates the attempt that set _req_id; with the single recycled id 0 it designates the    *)
+(* attempt currently registered on _connection.                                                         *)
 TimeoutFire ==
     /\ Timeouts
     /\ timer = "timeout"
-    /\ LET dereg == IF reqAtt \in att /\ sentLog[reqAtt].host = lastConn THEN {reqAtt} ELSE {} IN
+    /\ LET dereg == IF ids = "one"
+                    \* every attempt carries stream id 0 = _req_id: whatever is registered on _connection is popped
+                    THEN IF reqAtt # 0 THEN {a \in att : sentLog[a].host = lastConn} ELSE {}
+                    ELSE IF reqAtt \in att /\ sentLog[reqAtt].host = lastConn THEN {reqAtt} ELSE {} IN
        Set(FComplete([S EXCEPT !.att = @ \ dereg], "OperationTimedOut"))
     /\ act' = A("TimeoutFire", 0, "-", "-", 0)
-    /\ UNCHANGED <<idem, target, started>>
+    /\ UNCHANGED <<idem, target, ids, started>>
 
 (* _retry_task (executor) *)
 RetryTask ==
@@ -248,7 +258,7 @@ RetryTask ==
        ELSE IF t.reuse /\ pool[t.host] = "healthy" THEN Set(FSend(s1, t.host, FALSE))
        ELSE Set(FLoop(IF t.reuse THEN FSkip(s1, t.host) ELSE s1, TRUE))
     /\ act' = A("RetryTask", 0, "-", "-", 0)
-    /\ UNCHANGED <<idem, target, started>>
+    /\ UNCHANGED <<idem, target, ids, started>>
 
 (* start_fetching_next_page (client thread, after the page was delivered).  Scope: no attempt of the  *)
 (* previous page outstanding and no retry task queued.  INTENDED: a fresh timer for the page fetch.    *)
@@ -261,7 +271,7 @@ StartNextPage ==
                            !.timer = "none"] IN
        Set(FLoop(FArm(s0), TRUE))
     /\ act' = A("StartNextPage", 0, "-", "-", 0)
-    /\ UNCHANGED <<idem, target, started>>
+    /\ UNCHANGED <<idem, target, ids, started>>
 
 Next ==
     \/ Start
